@@ -817,7 +817,13 @@ func (l *List) CombineN(sta funcGen.Stack[Value]) (*List, error) {
 		}
 		return NewListFromIterable(func(st funcGen.Stack[Value]) iterator.Producer[Value] {
 			return iterator.CombineN[Value, Value](l.iterable(st), int(n), func(i0 int, i []Value) (Value, error) {
-				st.Push(NewList(i...))
+				// i is the ring buffer of the iterator, which is overwritten while
+				// iterating, and i0 is the index of its oldest element. The function
+				// gets its own copy with the elements in the order of the list.
+				window := make([]Value, 0, len(i))
+				window = append(window, i[i0:]...)
+				window = append(window, i[:i0]...)
+				st.Push(NewList(window...))
 				return f.Func(st.CreateFrame(1), nil)
 			})
 		}), nil
